@@ -30,7 +30,9 @@ def run(ck, build):
     hashlib.run_update(ob, mod, "H/N0")
     ck.floor("R-C11", "obligations over hash path classes", len(ck.obligations), 300)
     # isolation: the hash functions have no global and write only through their parameters
-    ck.ob(not [g for g in mod.globals if not g["constant"]], "R-C11-ISOLATED", "(module)", "no-globals[H/N0]", "the library has no writable global", "writable global present (see C19)")
+    wg = hashlib.writable_globals_of(mod, lambda n: n.startswith("tinyjambu_hash"))
+    ck.ob(not wg, "R-C11-ISOLATED", "(module)", "no-globals[H/N0]", "no function reachable from the hash API refers to a writable global: two hash states cannot interfere",
+          "the hash functions refer to writable global(s) %s: state shared between hash objects" % sorted(wg))
     fx = Module(build.fixture_facts(os.path.join(os.path.dirname(os.path.dirname(os.path.dirname(__file__))), "fixtures", "c10_bad.c")))
     sub = type(ck)("C11-fixture")
 
